@@ -9,6 +9,7 @@ import numpy as np
 
 import common
 from common import Case, Issue, q, ql, il, line
+from thr_common import U53, FLBOUND_SLACK, fl_in_range, fl_bucket
 
 ID = "C05"
 LEVEL = "proof"
@@ -31,7 +32,10 @@ TRUSTED_BASE = ["Lean 4.33 kernel", "axioms propext/Classical.choice/Quot.sound 
                 "pandas .loc / numpy indexing by documented meaning; tolerance 1e-9 relative on float-weight sums, "
                 "1e-12 on quotients; harness and driver parsing"]
 ASSUMPTIONS = ["positive finite weights, non-negative finite matrix entries",
-               "leading shape X handled member-wise; float sums compared with tolerance"]
+               "leading shape X handled member-wise; float sums compared with tolerance",
+               "cells built from float weights (`matrix[i][j] += weight` in input order): within FLBOUND_SLACK x wsumEps = "
+               "((k-1)u/(1-(k-1)u)) x sum|w| of the exact total for a cell with k samples (SA.C05_weighted_fl_error, standard model "
+               "|fl x - x| <= u|x|, u = 2^-53, adding to a zero accumulator is exact); weights in [2^-200, 2^200]"]
 
 COUNTS = ["tp", "fn", "fp", "tn", "p", "n", "top", "ton"]
 RATES = ["tpr", "fnr", "tnr", "fpr", "ppv", "fdr", "npv", "for_", "topr", "tonr", "class_accuracy",
@@ -170,6 +174,7 @@ class _Ctx:
         self.judges = []  # (start, count, fn(outs) -> issues)
         self.pre = []
         self.evals = 0
+        self.flworst, self.flchecked = None, 0  # float-bound: largest observed/bound ratio, number of cells compared
         labs = set(inp["universe"]) | set(inp["labels"]) | set(inp["preds"]) | {inp["extra"]}
         self.cmap = {l: 10 + 7 * r for r, l in enumerate(sorted(labs))}
 
@@ -202,8 +207,10 @@ def _obs_cm(ctx, r, tag):
     return "ok", mat.reshape(-1).tolist(), list(cm.classes)
 
 
-def _judge_cm(ctx, r, obs, tag, spec, eps, desc):
-    """judge for a cmbuild / cmmatrix line: error branch, spec verdicts, model matrix and classes"""
+def _judge_cm(ctx, r, obs, tag, spec, eps, desc, flweights=None):
+    """judge for a cmbuild / cmmatrix line: error branch, spec verdicts, model matrix and classes.
+    `flweights` (the float weights): a second driver line (op `wsumbound`) follows; the model/implementation comparison of
+    the cells then uses the theorem's per-cell bound wsumEps (SA.C05_weighted_fl_error) with FLBOUND_SLACK instead of `eps`"""
     def fn(outs):
         o = outs[0]
         iss = []
@@ -224,7 +231,25 @@ def _judge_cm(ctx, r, obs, tag, spec, eps, desc):
                 iss.append(Issue("PROPFAIL", f"{tag}-{cl}", f"{tag}: observed matrix {obs[1]} classes {obs[2]}; {desc}",
                                  f"cm/{tag}/{cl}"))
         mm = common.pfracs(o["m"])
-        if len(mm) != len(obs[1]) or any(not common.close(a, b, rel=eps, abs_=eps) for a, b in zip(obs[1], mm)):
+        o2 = outs[1] if flweights is not None and len(outs) > 1 else None
+        if (o2 is not None and o2.get("err") == "none" and o2.get("ok") == "1" and len(mm) == len(obs[1])
+                and fl_in_range(flweights) and len(common.pfracs(o2["eps"])) == len(mm)):
+            # float-bound: every cell against the exact total, bound = wsumEps of the cell's own weights
+            bounds = common.pfracs(o2["eps"])
+            for c_, (a, b, bd) in enumerate(zip(obs[1], mm, bounds)):
+                a_ = common.fr(a)
+                if a_ is None or isinstance(a_, float):
+                    iss.append(Issue("DISAGREE", f"{tag}-matrix", f"{tag}: cell {c_} impl {a} model {b}; {desc}", f"cm/{tag}/matrix"))
+                    continue
+                d = abs(a_ - b)
+                ratio = d / bd if bd > 0 else (Fraction(0) if d == 0 else Fraction(10**6))
+                ctx.flworst = ratio if ctx.flworst is None or ratio > ctx.flworst else ctx.flworst
+                ctx.flchecked += 1
+                if d > FLBOUND_SLACK * bd:
+                    iss.append(Issue("DISAGREE", "float-bound", f"{tag}: cell {c_} impl {a} model {float(b)} differ by {float(d):.3e} > "
+                                     f"{FLBOUND_SLACK} x {float(bd):.3e} (theorem bound wsumEps, {common.plist(o2['k'])[c_]} samples; ratio "
+                                     f"{float(ratio):.2f}); {desc}", f"cm/{tag}/float-bound"))
+        elif len(mm) != len(obs[1]) or any(not common.close(a, b, rel=eps, abs_=eps) for a, b in zip(obs[1], mm)):
             iss.append(Issue("DISAGREE", f"{tag}-matrix", f"{tag}: impl {obs[1]} model {[str(x) for x in mm]}; {desc}",
                              f"cm/{tag}/matrix"))
         return iss
@@ -267,8 +292,16 @@ def build(inp) -> Case:
     r1 = mk(labels, preds, weights, classes1)
     obs1 = _obs_cm(ctx, r1, "build")
     desc1 = f"classes={classes1} labels={labels} preds={preds} weights={weights}"
-    ctx.add([build_line(labels, preds, weights, classes1, r1, obs1, eps1)],
-            _judge_cm(ctx, r1, obs1, "build", "entry", eps1, desc1))
+    flw = [float(w) for w in weights] if inp["wkind"] == "float" and weights else None
+
+    def bound_line(labels_, preds_, weights_, classes_):
+        """second line of a float-weight construction: the per-cell bound of SA.C05_weighted_fl_error (op `wsumbound`)"""
+        return line("wsumbound", classes=_optl(classes_, lambda c: il(ctx.codes(c))), labels=il(ctx.codes(labels_)),
+                    preds=il(ctx.codes(preds_)), weights=_optl(weights_, ql), u=q(U53))
+
+    ctx.add([build_line(labels, preds, weights, classes1, r1, obs1, eps1)]
+            + ([bound_line(labels, preds, weights, classes1)] if flw else []),
+            _judge_cm(ctx, r1, obs1, "build", "entry", eps1, desc1, flweights=flw))
     ctx.evals += 1
     if r1[0] == "ok":
         cm1 = r1[1]
@@ -289,8 +322,9 @@ def build(inp) -> Case:
         prng.shuffle(classes2)
         r2 = mk(labels, preds, weights, classes2)
         obs2 = _obs_cm(ctx, r2, "rebuild")
-        ctx.add([build_line(labels, preds, weights, classes2, r2, obs2, eps1)],
-                _judge_cm(ctx, r2, obs2, "rebuild", "entry", eps1, f"classes={classes2} " + desc1))
+        ctx.add([build_line(labels, preds, weights, classes2, r2, obs2, eps1)]
+                + ([bound_line(labels, preds, weights, classes2)] if flw else []),
+                _judge_cm(ctx, r2, obs2, "rebuild", "entry", eps1, f"classes={classes2} " + desc1, flweights=flw))
         if r1[0] == "ok" and r2[0] == "ok" and obs1[1] and obs2[1]:
             ln = line("bylabel", c1=il(ctx.codes(obs1[2])), m1=ql(obs1[1]), c2=il(ctx.codes(obs2[2])), m2=ql(obs2[1]),
                       eps=q(eps1))
@@ -451,9 +485,14 @@ def build(inp) -> Case:
         iss = []
         for a, cnt, fn in judges:
             iss += fn(outs[a:a + cnt])
+        if inp["wkind"] == "float":
+            case.tags = case.tags + ("float-bound ratio " + fl_bucket(ctx.flworst),)
+        case.flratio, case.flchecked = ctx.flworst, ctx.flchecked
         return iss
 
-    return Case(ID, inp, ctx.lines, judge, tuple(tags), 0, ctx.pre)
+    case = Case(ID, inp, ctx.lines, None, tuple(tags), 0, ctx.pre)
+    case.judge = judge
+    return case
 
 
 def _collect(ctx, cm, shape, N, tag, metrics, with_dict):
